@@ -13,7 +13,7 @@
    registry) and the live-object oracle. *)
 From Coq Require Import ZArith List Bool Lia.
 From Coq Require Import Permutation.
-From Cntgs Require Import Base Layout Mem Vector Spec Rep LifeThm StableThm NtRefine LifeHist FixedLife Proxy Elem ElemThm ElemLife.
+From Cntgs Require Import Base Layout Mem Vector Spec Rep Refine LifeThm StableThm NtRefine LifeHist FixedLife LiveDisjoint Proxy Elem ElemThm ElemLife.
 Import ListNotations.
 Local Open Scope Z_scope.
 
@@ -161,6 +161,49 @@ Proof.
   - cbn. intros (_ & _ & _ & _ & H & _). lia.
   - vm_compute. split; reflexivity.
 Qed.
+
+(* ---------- "its storage is never overwritten by another object while it is alive" ----------
+   at the level of states: in EVERY represented state the objects a vector holds - every object
+   of every selected field of every element - lie one behind the other inside
+   [0, data_end()) of the block (LiveDisjoint.v: ochain), hence occupy pairwise disjoint byte
+   ranges, and no object occurs twice: the multiset `live` of the balance theorems is a set *)
+Theorem C06_held_objects_lie_one_behind_the_other : forall L, wf_plist L = true ->
+  forall sel v l offs, RepO L v l offs -> ochain 0 (vobjs sel L offs l) (dend L v).
+Proof. exact held_objects_chain. Qed.
+Print Assumptions C06_held_objects_lie_one_behind_the_other.
+
+Theorem C06_one_behind_the_other_means_disjoint : forall objs lo hi, ochain lo objs hi ->
+  ForallOrdPairs (fun a b => fst a + snd a <= fst b) objs /\ NoDup objs /\
+  Forall (fun b => lo <= fst b /\ fst b + snd b <= hi) objs.
+Proof.
+  intros objs lo hi H. split; [exact (ochain_disjoint _ _ _ H)|]. split; [exact (ochain_nodup _ _ _ H)|exact (ochain_all_ge _ _ _ H)].
+Qed.
+Print Assumptions C06_one_behind_the_other_means_disjoint.
+
+Theorem C06_live_objects_form_a_set : forall L, wf_plist L = true ->
+  forall v l offs, RepO L v l offs -> NoDup (live L v l).
+Proof. exact live_nodup. Qed.
+Print Assumptions C06_live_objects_form_a_set.
+
+(* ... after every valid history from construction (NtRefine.nt_hist_okx) *)
+Theorem C06_held_objects_disjoint_after_every_history : forall L cap budget fixed aid junk bid tbid h,
+  wf_plist L = true -> 0 <= cap -> Forall (fun c => 0 <= c) fixed ->
+  let v0 := fst (mkvec L cap budget fixed aid junk bid tbid) in
+  let s0 := {| s_cap := cap; s_elems := [] |} in
+  shist_valid L (fixed_counts L fixed) s0 h -> nt_hist_okx L s0 h ->
+  let v := vrun L junk v0 h in
+  let l := s_elems (srun s0 h) in
+  exists offs, RepO L v l offs /\
+    forall sel, ForallOrdPairs (fun a b => fst a + snd a <= fst b) (vobjs sel L offs l) /\
+                Forall (fun b => 0 <= fst b /\ fst b + snd b <= dend L v) (vobjs sel L offs l).
+Proof.
+  intros L cap budget fixed aid junk bid tbid h Hwf Hcap Hfx. cbv zeta. intros Hv Hn.
+  destruct (rep_every_history_nt L cap budget fixed aid junk bid tbid h Hwf Hcap Hfx Hv Hn) as [offs R].
+  exists offs. split; [exact R|]. intros sel.
+  pose proof (held_objects_chain L Hwf sel _ _ offs R) as H.
+  split; [exact (ochain_disjoint _ _ _ H)|exact (ochain_all_ge _ _ _ H)].
+Qed.
+Print Assumptions C06_held_objects_disjoint_after_every_history.
 
 (* ---------- the objects of a ContiguousElement ----------
    An element constructed from a reference (value_type{ref}: copy form, value_type{std::move(ref)}:
